@@ -138,10 +138,22 @@ impl RefValue {
 	/// Builds the value through construction route `route`:
 	/// 0 `Object::from_vec`, 1 `push`, 2 parsing the compact text, 3 clone of a pushed value,
 	/// 4 `From` conversions + `FromIterator<(Key, Value)>`, 5 `Extend<Entry>` in two halves + `push_front` for the first entry,
-	/// 6 parsing a rendering with arbitrary escapes and whitespace.
+	/// 6 parsing a rendering with arbitrary escapes and whitespace, 7 `to_value` (Serialize for Value), 8 `from_value::<Value>`
+	/// (7, 8 only when `bridge_exact`, else routes 1, 2).
 	pub fn to_value_route(&self, route: u8) -> Value {
 		use json_syntax::Parse;
-		match route % 7 {
+		match route % 9 {
+			// 7, 8: through the serde bridges, only for values on which those bridges are exact copies
+			// (duplicate-free objects, plain integers within 64 bits, no in-band number token)
+			7 | 8 if self.bridge_exact() => {
+				let base = self.to_value_push();
+				let out = match route % 9 {
+					7 => json_syntax::to_value(&base).ok(),
+					_ => json_syntax::from_value::<Value>(base.clone()).ok(),
+				};
+				out.unwrap_or(base)
+			}
+			7 | 8 => self.to_value_route(route % 9 - 6),
 			6 => {
 				// parsing a rendering with arbitrary escapes and whitespace (choices derived from the value)
 				let seed = crate::framework::hash64(&crate::refprint::compact(self));
@@ -193,6 +205,25 @@ impl RefValue {
 				other => other.to_value(),
 			},
 		}
+	}
+
+	/// True when the serde bridges (Serialize / Deserialize for Value) are specified to copy
+	/// this value exactly: no duplicate keys, every number a plain integer that fits i64/u64 (and not `-0`), and the
+	/// private number token of serde_json never used as a key.
+	pub fn bridge_exact(&self) -> bool {
+		if self.has_duplicate_keys() {
+			return false;
+		}
+		let mut nums = vec![];
+		self.all_numbers(&mut nums);
+		let ints = nums.iter().all(|n| *n != "-0" && (n.parse::<i64>().map(|i| i.to_string() == **n).unwrap_or(false) || n.parse::<u64>().map(|u| u.to_string() == **n).unwrap_or(false)));
+		let mut keys = vec![];
+		self.walk(&mut |v| {
+			if let RefValue::Obj(o) = v {
+				keys.extend(o.iter().map(|(k, _)| k.as_str()))
+			}
+		});
+		ints && !keys.iter().any(|k| k.starts_with("$serde_json::private"))
 	}
 
 	/// Reads a json-syntax value back through its public accessors.
